@@ -96,6 +96,7 @@ var c19selNames = [4]string{"MinIndexCoinSelector", "MinNumberCoinSelector", "Ma
 type c19stats struct {
 	calls, succ, errs, empty, exact, change, maxedOut, ties [4]int64
 	lowMixed                                                int64 // MinPriority successes containing a coin below the threshold
+	resultSets                                              int64 // results that are *CoinSet, totals compared with contents
 	offered                                                 []coinset.Coin
 	ids                                                     []int
 
@@ -140,6 +141,7 @@ func (s *c19stats) flush(c *vf.Ctx) {
 		c.Count(n+"/selection_with_key_ties", s.ties[k])
 	}
 	c.Count("MinPriorityCoinSelector/selection_mixes_below_threshold_coin", s.lowMixed)
+	c.Count("selector_results_checked_as_CoinSet(totals==contents)", s.resultSets)
 }
 
 // c19select runs one selector on a private copy of the offered list and
@@ -188,6 +190,25 @@ func c19select(c *vf.Ctx, st *c19stats, which int, p c19params, list []*c19coin)
 	var got []coinset.Coin
 	if !c.Call(name+"/Coins", in, func() { got = res.Coins() }) {
 		return
+	}
+	// a selection handed out as a *CoinSet is a coin set like any other: its
+	// count and totals equal the sums over its contents, now and after the
+	// caller goes on using it
+	if cs, isSet := res.(*coinset.CoinSet); isSet && cs != nil {
+		var num int
+		var tv bchutil.Amount
+		var tva int64
+		if c.Call(name+"/CoinSet-totals", in, func() { num, tv, tva = cs.Num(), cs.TotalValue(), cs.TotalValueAge() }) {
+			var sv, sva int64
+			for _, g := range got {
+				sv += int64(g.Value())
+				sva += g.ValueAge()
+			}
+			if num != len(got) || int64(tv) != sv || tva != sva {
+				c.Failf(name+"/result-set-totals", "%s: the returned *CoinSet reports Num()=%d TotalValue()=%d TotalValueAge()=%d but holds %d coins summing to value %d, value-age %d", lin, num, int64(tv), tva, len(got), sv, sva)
+			}
+			st.resultSets++
+		}
 	}
 
 	// distinct coins taken from the offered list
